@@ -24,6 +24,9 @@ CLAIMED = {
  "C20": ("evaluation of literal data in the typed syntax tree (and assembly DATA blocks) against an independent math/big oracle; AST provenance rules for start-up tables",
          "Exhaustive over the finite set of embedded constants: every literal field element, scalar, point, compressed encoding, packed table entry (256 + 64 + 64), Keccak round constant, bias vector and assembly RODATA block is read from the typed syntax tree of every configuration (constant folding through go/types, limb vectors converted with the radix of that back end, limbs required to be in reduced range) and compared with its defining formula evaluated by an oracle written with math/big that is itself checked against the values printed in RFC 8032/9496/7748/FIPS 202; 64-bit and 32-bit encodings of one name are cross-checked; a package-level arithmetic variable or function-body literal without a definition fails the run; start-up tables are checked for provenance (built from the named source constant by the expected constructor, index 8i+j, byte ranges of the packed entries). Each literal is also perturbed in memory on every run and the check must reject the perturbation.",
          "DESIGN.md §3 E-CONST, §4 C20", "the values of tables computed at start-up by library code are not decided, only their provenance", ["econst", "easm"]),
+ "C01": ("finite predicate abstraction: path enumeration over SSA with uninterpreted terms, three-valued comparison with the specification predicate",
+         "Decides the accept/reject decision of Ed25519 verification as a Boolean function of the admission predicates (length, S<L test, decoding, small-order and canonicity tests of A and R) and the five option flags, for all flag combinations, all variants (pure/ctx/ph) and all predicate outcomes: every path of verifyWithOptionsNoPanic (helpers inlined, ~900 feasible paths) must yield exactly the class (option error / reject / cofactored equation / cofactorless comparison) the specification formula gives for the conditions the path tested, evaluated in Kleene logic so that a dropped or weakened test is found on the paths that no longer consult it. On accepting paths the returned term must be the specified equation with the specified operand roles (k from the 64-byte digest, -A, S from sig[32:], R from sig[0:32]) and the challenge hash must absorb exactly dom2(variant, context), R bytes, A bytes, message. The four presets are checked as literals. The predicates themselves (group arithmetic, SHA-512) are uninterpreted and not decided.",
+         "DESIGN.md §3 E-DT, E-SEQ, §4 C01", "specification formulas and role vocabulary are in props/c01.go; atoms are uninterpreted (their mathematical meaning is C03/C05/C10)", ["edt", "emod"]),
 }
 
 PENDING_REASON = "check under construction (DESIGN.md section 7 build order); not claimed yet"
